@@ -52,10 +52,62 @@ struct IHM {
     std::function<bool(int, int)> on_yield;   // returns true: erase this element through the iterator
     std::function<void()> pre_step, post_step; // around begin() / ++it
     std::function<void(int)> post_erase;       // after erase(iterator) returned (argument: key of the new position, -1 end)
+    // 0: prefix ++, erase through a copy of the iterator; 1: postfix ++ everywhere and the `c.erase(it++)` idiom (the
+    // erased position is the copy returned by it++, the traversal goes on with the already advanced iterator);
+    // 2: postfix ++ keeping the returned copy one step behind: it must stay dereferenceable, keep referring to its
+    // element and be advanceable on its own (seed RBi: the copy returned by it++ without its guard on the predecessor)
+    int style = 0;
   };
   virtual void traverse(const TCb& cb) = 0;
   virtual bool is_map() const = 0;
 };
+
+template <class C, class KF, class VF>
+inline void traverse_generic(C& c, const IHM::TCb& cb, KF kf, VF vf) {
+  cb.pre_step();
+  auto it = c.begin();
+  cb.post_step();
+  int steps = 0;
+  while (it != c.end()) {
+    int k = kf(it);
+    int v = vf(it);
+    if (cb.on_yield(k, v)) {
+      if (cb.style == 1) {
+        xsim::tag("iterator-copy-outlives-source");
+        auto old = it++;
+        auto nx = c.erase(std::move(old));
+        cb.post_erase(nx == c.end() ? -1 : kf(nx));
+      } else {
+        auto copy = it; // copies of the iterator stay valid too
+        it = c.erase(std::move(copy));
+        cb.post_erase(it == c.end() ? -1 : kf(it));
+      }
+    } else if (cb.style == 2) {
+      cb.pre_step();
+      // run-time tag for the known finding D11 (hazard_pointer configurations only): it++ copies the guards of the
+      // iterator and then releases the originals; a hazard pointer copied from a guard whose object is already retired
+      // is not validated, so a scan that has passed the new slot but not yet the old one frees the node under the copy
+      xsim::tag("iterator-copy-outlives-source");
+      auto trail = it++;
+      cb.post_step();
+      if (trail == c.end() || kf(trail) != k || vf(trail) != v)
+        xsim::fail("iterator-copy-changed", "the iterator returned by it++ no longer refers to the element (key %d) it was copied on", k);
+      if (++steps & 1) {
+        cb.pre_step();
+        ++trail; // a copy is an iterator of its own: it can be advanced and lands on an element or on end()
+        cb.post_step();
+        if (trail != c.end()) (void)kf(trail);
+      }
+    } else {
+      cb.pre_step();
+      if (cb.style == 1)
+        it++;
+      else
+        ++it;
+      cb.post_step();
+    }
+  }
+}
 
 // ---- set adapter ---------------------------------------------------------------------------------
 // Sets have no mapped value; the identity of the node (address of its key, stable while any guard or
@@ -108,21 +160,8 @@ struct SetAd : IHM {
     return {true, id};
   }
   void traverse(const TCb& cb) override {
-    cb.pre_step();
-    auto it = s.begin();
-    cb.post_step();
-    while (it != s.end()) {
-      int k = from(*it);
-      if (cb.on_yield(k, node_id(&*it))) {
-        auto copy = it; // copies of the iterator stay valid too
-        it = s.erase(std::move(copy));
-        cb.post_erase(it == s.end() ? -1 : from(*it));
-      } else {
-        cb.pre_step();
-        ++it;
-        cb.post_step();
-      }
-    }
+    traverse_generic(
+      s, cb, [](const typename S::iterator& it) { return from(*it); }, [](const typename S::iterator& it) { return node_id(&*it); });
   }
   bool is_map() const override { return false; }
 };
@@ -178,22 +217,8 @@ struct MapAd : IHM {
     return {true, v};
   }
   void traverse(const TCb& cb) override {
-    cb.pre_step();
-    auto it = m.begin();
-    cb.post_step();
-    while (it != m.end()) {
-      int k = KC::from(it->first);
-      int v = it->second;
-      if (cb.on_yield(k, v)) {
-        auto copy = it;
-        it = m.erase(std::move(copy));
-        cb.post_erase(it == m.end() ? -1 : KC::from(it->first));
-      } else {
-        cb.pre_step();
-        ++it;
-        cb.post_step();
-      }
-    }
+    traverse_generic(
+      m, cb, [](const typename M::iterator& it) { return KC::from(it->first); }, [](const typename M::iterator& it) { return (int)it->second; });
   }
   bool is_map() const override { return true; }
 };
@@ -306,7 +331,9 @@ public:
   }
   void generate(GenCtx& g, Program& p) override {
     p.config = (int)g.rng.below(ncfg);
-    bool c09 = !strcmp(g.mode, "C09");
+    // C09 programs (one traverser, updaters biased to erase / re-insert) also make up half of the campaign runs
+    // (C03, C16): iteration and erase(iterator) are lock-free operations and touch plain memory like everything else
+    bool c09 = !strcmp(g.mode, "C09") || (strcmp(g.mode, "C08") && g.rng.chance(50));
     nkeys = c09 ? g.rng.range(4, 6) : g.rng.range(3, 5);
     int prefill = (int)g.rng.below(nkeys + 1);
     int nextv = 100;
@@ -318,7 +345,7 @@ public:
       if (c09 && t == 0) {
         // the traverser: one or two traversals, optionally erasing the element at a random position
         int ntr = g.rng.range(1, 2);
-        for (int i = 0; i < ntr; i++) p.threads[t].ops.push_back(Op{OP_TRAVERSE, g.rng.chance(50) ? (int64_t)g.rng.below(nkeys) : -1, 0, 0});
+        for (int i = 0; i < ntr; i++) p.threads[t].ops.push_back(Op{OP_TRAVERSE, g.rng.chance(50) ? (int64_t)g.rng.below(nkeys) : -1, (int64_t)g.rng.below(3), 0});
         continue;
       }
       int n = seq ? g.rng.range(50, g.tier ? 300 : 120) : g.rng.range(1, g.tier ? 8 : 6);
@@ -419,6 +446,7 @@ public:
         int erase_at = (int)op.a;
         note(OP_T_BEGIN, erase_at, id);
         IHM::TCb cb;
+        cb.style = (int)op.b;
         cb.pre_step = [&]() { op_begin(OP_ITER_NEXT, 0, id, 0, lf); };
         cb.post_step = [&]() { op_end(1); };
         cb.on_yield = [&](int key, int val) {
